@@ -49,7 +49,7 @@ TRUSTED_BASE = ["lib/scheme_ref.py: reference interpreter written from R7RS (an 
 MODEL_VOCAB_WIDE = True       # the merged model has the list/vector/predicate builtins: wide sessions go three-way
 
 MANIFEST = dict(
-    text="Coq theorems (coq/Props/C01.v) about the hand-written model of the real pipeline (macro expansion over the GENERATED prelude, compiler, VM): bytecode shape of applications (operand order, CALL protocol) and of `if` (tail flag inherited), refutation witnesses for the recorded defect classes computed in-kernel; and a SEMANTIC compile-and-run correctness theorem for a fragment, by induction over every expression of it (C01_fragment_correct, C01_eval_fragment: constants, quote of any datum, both forms of if, global variable reference, define and set! of globals, application of a value-level builtin to argument expressions, arbitrarily nested): compiling appends a code segment, and running that segment from any machine extending the compile-time state reaches its end with %acc representing the value the big-step reference semantics (ref_eval, in Coq) assigns, the globals updated as it says, and sp/bp/ep/output/stack below sp unchanged; lifted to Vm::eval up to the final conversion of the value; the fragment is extended (C01_fragment2_correct, C01_eval_fragment2) with lambda expressions applied in place - ((lambda (x1 ... xn) body) e1 ... en), what let expands to - with parameter references, in tail position (TCALL, both frame-rebuild branches) and non-tail position (CALL, ENTER, RET), arbitrarily nested, no capture of locals by inner lambdas (a syntactic condition proved to imply the compiler's own free-symbol analysis finds nothing to capture); closures as VALUES (C01_fragment3_correct, C01_eval_fragment3, by induction on the reference derivation): lambda expressions in any position, inner lambdas capturing variables of enclosing ones, applications whose operator evaluates to a closure or a builtin, (define f (lambda ...)) with calls by name from later forms and recursion through the global; the state a completed evaluation leaves satisfies the premises again (C01_done_state_ok), so sessions compose. bodies of several expressions (C01_fragment4_correct) and set! on local variables, captured or not, with a reference semantics over a store of locations in which closures capture locations (C01_fragment6_correct, C01_eval_fragment6; the counter ((lambda (n) ((lambda (inc) (inc) (inc)) (lambda () (set! n ...) n))) ...) is inside the fragment); the machine invariant these theorems assume is proved for the BOOTED machine and every state reachable from it by any sequence of evaluations of ANY data, by preservation through the compiler, every instruction and every builtin (C01_booted_minv, C01_session_minv, C01_eval_preserves_rinv), so the fragment theorems apply in real sessions (C01_eval_fragment6_session). Not covered: the (define (f x) ...) spelling, internal definitions, variadic lambdas, macros, call/cc. The model's fuel for the final conversion of the value (heap size + 1) is shown INSUFFICIENT by a witness (a vector nested 8 deep on a 2-cell-chunk heap): the Rust conversion has no bound, so the honest premise 'the conversion does not run out of model fuel' is explicit in the Done-form theorems and a structural bound (twice the nesting) is proved for heaps without pointer cells. The statement for the whole language (lambda, closures, macros, call/cc) stays OPEN (C01_compile_correct_stmt) — the mechanisms it would compose are proved under C02 (scoping), C04 (frames), C05 (continuations), C07/C13 (run loop). Tie: three-way differential on generated sessions (implementation / extracted model / vm_compute sub-sample); the implementation's own output is classified against an independent reference interpreter written from R7RS (lib/scheme_ref.py), which is an oracle, not a proof.",
+    text="Coq theorems (coq/Props/C01.v) about the hand-written model of the real pipeline (macro expansion over the GENERATED prelude, compiler, VM): bytecode shape of applications (operand order, CALL protocol) and of `if` (tail flag inherited), refutation witnesses for the recorded defect classes computed in-kernel; and a SEMANTIC compile-and-run correctness theorem for a fragment, by induction over every expression of it (C01_fragment_correct, C01_eval_fragment: constants, quote of any datum, both forms of if, global variable reference, define and set! of globals, application of a value-level builtin to argument expressions, arbitrarily nested): compiling appends a code segment, and running that segment from any machine extending the compile-time state reaches its end with %acc representing the value the big-step reference semantics (ref_eval, in Coq) assigns, the globals updated as it says, and sp/bp/ep/output/stack below sp unchanged; lifted to Vm::eval up to the final conversion of the value; the fragment is extended (C01_fragment2_correct, C01_eval_fragment2) with lambda expressions applied in place - ((lambda (x1 ... xn) body) e1 ... en), what let expands to - with parameter references, in tail position (TCALL, both frame-rebuild branches) and non-tail position (CALL, ENTER, RET), arbitrarily nested, no capture of locals by inner lambdas (a syntactic condition proved to imply the compiler's own free-symbol analysis finds nothing to capture); closures as VALUES (C01_fragment3_correct, C01_eval_fragment3, by induction on the reference derivation): lambda expressions in any position, inner lambdas capturing variables of enclosing ones, applications whose operator evaluates to a closure or a builtin, (define f (lambda ...)) with calls by name from later forms and recursion through the global; the state a completed evaluation leaves satisfies the premises again (C01_done_state_ok), so sessions compose. bodies of several expressions (C01_fragment4_correct) and set! on local variables, captured or not, with a reference semantics over a store of locations in which closures capture locations (C01_fragment6_correct, C01_eval_fragment6; the counter ((lambda (n) ((lambda (inc) (inc) (inc)) (lambda () (set! n ...) n))) ...) is inside the fragment); the machine invariant these theorems assume is proved for the BOOTED machine and every state reachable from it by any sequence of evaluations of ANY data, by preservation through the compiler, every instruction and every builtin (C01_booted_minv, C01_session_minv, C01_eval_preserves_rinv), so the fragment theorems apply in real sessions (C01_eval_fragment6_session). the (define (f x1 ... xn) body ...) spelling compiles to exactly the same computation as (define f (lambda ...)) (C01_define_spelling) and the fragment theorems are lifted to it; the VARARG instruction binds the rest parameter to a fresh proper list of the surplus arguments in order (C01_vararg_rest_list, machine level). Not covered: internal definitions, variadic lambdas as expressions of the fragment, the dotted define spelling, lambdas, macros, call/cc. The model's fuel for the final conversion of the value (heap size + 1) is shown INSUFFICIENT by a witness (a vector nested 8 deep on a 2-cell-chunk heap): the Rust conversion has no bound, so the honest premise 'the conversion does not run out of model fuel' is explicit in the Done-form theorems and a structural bound (twice the nesting) is proved for heaps without pointer cells. The statement for the whole language (lambda, closures, macros, call/cc) stays OPEN (C01_compile_correct_stmt) — the mechanisms it would compose are proved under C02 (scoping), C04 (frames), C05 (continuations), C07/C13 (run loop). Tie: three-way differential on generated sessions (implementation / extracted model / vm_compute sub-sample); the implementation's own output is classified against an independent reference interpreter written from R7RS (lib/scheme_ref.py), which is an oracle, not a proof.",
     design="DESIGN.md section 5 C01",
     note="The reference interpreter is an ORACLE for classifying the implementation's output, not a proof, and it is "
          "trusted (written from R7RS, independent of marwood's code). Known findings (status open, narrow syntactic "
